@@ -18,7 +18,7 @@ REPO = "/repo"
 VERIF = os.path.dirname(os.path.dirname(os.path.abspath(__file__)))
 
 FILE_CHECKS = {
-    "src/directory.rs": ["C05", "C06", "C08", "C03", "C12"],
+    "src/directory.rs": ["C05", "C06", "C19", "C08", "C03", "C12"],
     "src/header/mod.rs": ["C09", "C01", "C02", "C12"],
     "src/header/lat_lng.rs": ["C09", "C01"],
     "src/header/compression.rs": ["C09", "C14", "C01"],
@@ -209,7 +209,8 @@ def run(inp, outdir, spec, only=None):
         if res["tests"] == "pass":
             res["verdict"] = "SURVIVED"
             for c in FILE_CHECKS[m["file"]]:
-                rc, out = sh(f"timeout 900 bin/check {c} 2>&1 | tail -30", cwd=base + "/verif", timeout=960, env=env)
+                rc, out = sh(f"timeout 1500 bin/check {c} 2>&1", cwd=base + "/verif", timeout=1560, env=env)
+                out = "\n".join(out.split("\n")[-30:])
                 viol = [l for l in out.split("\n") if l.startswith("VIOLATION")]
                 tool = [l for l in out.split("\n") if "TOOL-ERROR" in l or "tool error" in l.lower()]
                 if viol:
@@ -217,7 +218,11 @@ def run(inp, outdir, spec, only=None):
                     res["detail"] = "\n".join(out.split("\n")[-8:])[:1500]
                     res["verdict"] = "caught"
                     break
-                elif tool or "rc=2" in out:
+                elif rc == 124:
+                    res["checks"][c] = "timeout"
+                    if res["verdict"] == "SURVIVED":
+                        res["verdict"] = "tool_error_only"
+                elif tool or rc == 2:
                     res["checks"][c] = "tool_error: " + (tool[0][:300] if tool else "")
                     if res["verdict"] == "SURVIVED":
                         res["verdict"] = "tool_error_only"
